@@ -26,6 +26,24 @@ string to_hex(string s) {
 
 void do_ops(string ops, string ctx);
 
+// deterministic message text; tools/c14.py builds the same text
+string make_msg(int m, int len, string pat) {
+  string base = "abcdefghijklmnopqrstuvwxyz";
+  string rot, s, hd;
+  int r = m % 26, i, k;
+  rot = base[r..] + base[0..r-1];
+  if (r == 0) rot = base;
+  hd = "<" + m + ">";
+  s = hd + repeat_string(rot, len / 26 + 2);
+  s = s[0..len-1];
+  if (pat == "l") { if (len > strlen(hd)) s[len-1] = '\n'; }
+  else if (pat[0] == 'k') {
+    k = to_int(pat[1..]);
+    for (i = k - 1; i < len; i += k) if (i >= strlen(hd)) s[i] = '\n';
+  }
+  return s;
+}
+
 void set_script(string k, string ops) { scripts[k] = ops; }
 void hb_set(int n) { set_heart_beat(n); }
 int hb_query() { return query_heart_beat(this_object()); }
@@ -95,6 +113,11 @@ void do_op(string op, string ctx) {
     break;
   case "force":
     for (r = 0; r < to_int(f[1]); r++) { vlog("\"e\":\"Forced\",\"u\":" + jq(me()) + ",\"i\":" + r); command("x forced" + r); }
+    break;
+  case "wr":     // wr:M:LEN:PAT  write message number M of LEN bytes with line feeds by pattern PAT
+    vlog("\"e\":\"Wr\",\"u\":" + jq(me()) + ",\"m\":" + to_int(f[1]) + ",\"len\":" + to_int(f[2]) + ",\"pat\":" + jq(f[3]));
+    write(make_msg(to_int(f[1]), to_int(f[2]), f[3]));
+    vlog("\"e\":\"WrEnd\",\"u\":" + jq(me()) + ",\"m\":" + to_int(f[1]));
     break;
   case "clr":
     map_delete(scripts, f[1]);
